@@ -84,6 +84,8 @@ TRANSLATORS = [
     ("cache_tr.py", "", "CacheGen.v"),
     # the operations of file_builder.py (build_file*, subbuild, queries, cache validation): OpsGenLaws.v
     ("operations_tr.py", "", "OpsGen.v"),
+    # the build driver of file_builder.py (_build, _roll_back, _commit, clean, _make_dirs, _make_room, ...) and file_backups.py
+    ("driver_tr.py", "", "DriverGen.v"),
 ]
 
 
